@@ -62,7 +62,7 @@ def main():
     a = ap.parse_args()
     fails, n, nontrivial = [], 0, 0
     for mech, u, pw, salt, it in cases(a.tier, a.seed):
-        for tamper in (None, "nonce-prefix", "salt", "iterations", "signature", "signature-last-bit", "signature-truncated",
+        for tamper in (None, "nonce-prefix", "nonce-prepended", "nonce-old-prepended", "nonce-only-suffix", "salt", "iterations", "signature", "signature-last-bit", "signature-truncated",
                        "signature-one-byte", "signature-empty", "signature-extended", "no-signature", "empty-final-message",
                        "wrong-password"):
             n += 1
@@ -88,7 +88,7 @@ def main():
             break
     emit({"name": "scram-exchange-vs-rfc5802-server", "exhaustive": False, "cases": n, "distinct_nontrivial": nontrivial,
           "bound": "usernames: every string of length <= %d over {a , = e-acute} plus escapes; both mechanisms; salts of 1/16/64 "
-                   "bytes; iteration counts incl. 1 and %d; honest server, 11 single-field tamperings (incl. truncated / empty / extended signature), wrong password; seed %d"
+                   "bytes; iteration counts incl. 1 and %d; honest server, 14 single-field tamperings (incl. a nonce that contains the client's without extending it) (incl. truncated / empty / extended signature), wrong password; seed %d"
                    % (3 if a.tier == "quick" else 4, 4096 if a.tier == "quick" else 20000, a.seed),
           "failures": fails, "replay": {"script": REPLAY}})
     n, fails = login_sequences(a.tier, a.seed)
@@ -106,7 +106,7 @@ def main():
     emit({"name": "sasl-handshake-vs-rfc5802-server", "exhaustive": False, "cases": n, "distinct_nontrivial": n,
           "bound": "the real AIOKafkaConnection._do_sasl_handshake (send / _send_sasl_token answered by the RFC 5802 server): both "
                    "SCRAM mechanisms, both framings (SaslAuthenticate v1 handshake / bare tokens), usernames with and without "
-                   "escapes, honest server and 8 ways of not knowing the password (incl. an empty final message); seed %d" % a.seed,
+                   "escapes, honest server and 10 ways of not knowing the password (incl. an empty final message); seed %d" % a.seed,
           "failures": fails, "replay": {"script": REPLAY_HS % a.seed}})
 
 
@@ -209,7 +209,7 @@ def handshakes(tier, seed):
     for mech in ("SCRAM-SHA-256", "SCRAM-SHA-512"):
         for user in ("user", "a,b=c"):
             for api_version in (0, 1):
-                for tamper in (None, "nonce-prefix", "salt", "signature", "signature-truncated", "signature-empty", "no-signature",
+                for tamper in (None, "nonce-prefix", "nonce-prepended", "nonce-only-suffix", "salt", "signature", "signature-truncated", "signature-empty", "no-signature",
                                "empty-final-message", "wrong-password"):
                     n += 1
                     salt = bytes(rnd.randrange(256) for _ in range(16))
